@@ -44,6 +44,7 @@ type SrvCfg struct {
 	SrvMsize   uint32 `json:"srv_msize"`
 	CliMsize   uint32 `json:"cli_msize"`
 	Dotu       bool   `json:"dotu"`
+	Downgrade  bool   `json:"downgrade"` // the server offers 9P2000.u, the client asks for 9P2000: the dialect changes in mid-stream
 	StreamSeed int64  `json:"stream_seed"`
 	Bytes      int    `json:"bytes"`
 	Bad        string `json:"bad"`    // "" | over1 | overhuge | short0 | short4 | short6
@@ -95,7 +96,12 @@ func buildSrvSession(cfg SrvCfg) *srvSession {
 		s.msgs = append(s.msgs, sm)
 	}
 	add("version", &wire.Msg{Type: wire.Tversion, Tag: wire.NOTAG, Msize: cfg.CliMsize, Version: ver}, false, false)
-	add("attach", &wire.Msg{Type: wire.Tattach, Tag: 1, Fid: 0, Afid: wire.NOFID, Uname: "user", Aname: "tree", Unamenum: 1000}, false, false)
+	if cfg.Downgrade {
+		// the smallest Tattach: its plain-9P2000 form is shorter than any 9P2000.u Tattach
+		add("attach", &wire.Msg{Type: wire.Tattach, Tag: 1, Fid: 0, Afid: wire.NOFID, Uname: "", Aname: ""}, false, false)
+	} else {
+		add("attach", &wire.Msg{Type: wire.Tattach, Tag: 1, Fid: 0, Afid: wire.NOFID, Uname: "user", Aname: "tree", Unamenum: 1000}, false, false)
+	}
 	add("walk", &wire.Msg{Type: wire.Twalk, Tag: 2, Fid: 0, Newfid: 1, Wname: []string{"file"}}, false, false)
 	add("open", &wire.Msg{Type: wire.Topen, Tag: 3, Fid: 1, Mode: 2}, false, false)
 	nclunk := 2 + rng.Intn(4)
@@ -283,7 +289,7 @@ func runSrv(t *testing.T, lg *go9p.Logger, s *srvSession, seg Seg, late bool) (o
 			}
 			return cmd
 		}
-		srv := &go9p.Srv{Log: lg, Dotu: s.cfg.Dotu, Msize: s.cfg.SrvMsize, Upool: users{}}
+		srv := &go9p.Srv{Log: lg, Dotu: s.cfg.Dotu || s.cfg.Downgrade, Msize: s.cfg.SrvMsize, Upool: users{}}
 		if !srv.Start(ops) {
 			panic("Srv.Start refused the scripted implementation")
 		}
@@ -346,7 +352,18 @@ func runSrv(t *testing.T, lg *go9p.Logger, s *srvSession, seg Seg, late bool) (o
 		}
 		nrep := func() int { mu.Lock(); defer mu.Unlock(); return len(obs.Replies) }
 		// set-up: one request at a time (the requests depend on each other)
-		for i := 0; i < s.nsetup && obs.Stuck == ""; i++ {
+		first := 0
+		if s.cfg.Downgrade {
+			// the Tversion that changes the dialect and the Tattach after it go out together, cut as the segmentation
+			// says (Tversion is handled inside the receive loop, so the order of execution is fixed)
+			first = 2
+			if !send(s.starts[0], s.starts[2]) {
+				obs.Stuck = "Tversion + Tattach were not consumed"
+			} else if nrep() != 2 {
+				obs.Stuck = fmt.Sprintf("Tversion + Tattach: %d of 2 replies", nrep())
+			}
+		}
+		for i := first; i < s.nsetup && obs.Stuck == ""; i++ {
 			if !send(s.starts[i], s.starts[i+1]) {
 				obs.Stuck = fmt.Sprintf("set-up message %d (%s) was not consumed", i, s.msgs[i].Kind)
 			} else if nrep() != i+1 {
@@ -612,6 +629,7 @@ func srvPlans(tier string, seed int64) []srvPlan {
 			{SrvCfg{SrvMsize: rm(65, 130), CliMsize: 8192, Dotu: true, StreamSeed: ss(2), Bytes: 1500}, 900, 9},
 			{SrvCfg{SrvMsize: 8192, CliMsize: rm(200, 600), StreamSeed: ss(3), Bytes: 9000}, 150, 9},
 			{SrvCfg{SrvMsize: 4096, CliMsize: 4096, Dotu: true, StreamSeed: ss(4), Bytes: 80000}, 40, 6},
+			{SrvCfg{SrvMsize: rm(64, 200), CliMsize: rm(64, 200), Downgrade: true, StreamSeed: ss(8), Bytes: 600}, 500, 9},
 			{SrvCfg{SrvMsize: 64, CliMsize: 64, StreamSeed: ss(5), Bytes: 700, Bad: "over1", BadAt: 9}, 400, 6},
 			{SrvCfg{SrvMsize: 128, CliMsize: 100, StreamSeed: ss(6), Bytes: 700, Bad: "overhuge", BadAt: 6}, 400, 6},
 			{SrvCfg{SrvMsize: 64, CliMsize: 64, StreamSeed: ss(7), Bytes: 500, Bad: []string{"short0", "short4", "short6"}[rng.Intn(3)], BadAt: 7}, 400, 6},
@@ -628,6 +646,8 @@ func srvPlans(tier string, seed int64) []srvPlan {
 		{SrvCfg{SrvMsize: rm(256, 1023), CliMsize: rm(256, 1023), Dotu: true, StreamSeed: ss(6), Bytes: 30000}, 600, 30},
 		{SrvCfg{SrvMsize: 8192, CliMsize: rm(1024, 4095), StreamSeed: ss(7), Bytes: 120000}, 200, 24},
 		{SrvCfg{SrvMsize: 4096, CliMsize: 4096, Dotu: true, StreamSeed: ss(8), Bytes: 150000}, 200, 24},
+		{SrvCfg{SrvMsize: rm(64, 200), CliMsize: rm(64, 200), Downgrade: true, StreamSeed: ss(10), Bytes: 1500}, 3000, 30},
+		{SrvCfg{SrvMsize: 8192, CliMsize: rm(256, 1023), Downgrade: true, StreamSeed: ss(11), Bytes: 6000}, 800, 24},
 	}
 	for i, b := range []string{"over1", "overhuge", "short0", "short4", "short5", "short6"} {
 		m := rm(64, 300)
